@@ -228,6 +228,12 @@ def run_case(case):
     for tw in cfg.towers:
         for i in range(ns):
             table[(tw.name, i)] = bldfm.run_bldfm_single(cfg, tw, met_index=i)
+    # a caller-supplied surface flux (concentration mode): the serial drivers hand it to every single run (the parallel driver
+    # documents that it does not take one, so it is compared with the built-in source only)
+    user_flux, table_u = None, None
+    if not raw["solver"]["footprint"] and rng.random() < 0.6:
+        user_flux = rng.normal(size=(12, 16)) + 2.0
+        table_u = {(tw.name, i): bldfm.run_bldfm_single(cfg, tw, met_index=i, surface_flux=user_flux) for tw in cfg.towers for i in range(ns)}
 
     # ---------------- schedule injection
     real_single = iface.run_bldfm_single
@@ -325,6 +331,19 @@ def run_case(case):
         mt = iface.run_bldfm_multitower(cfg)
         counters["driver_calls"] += 1
         compare("run_bldfm_multitower", mt, dict(options=desc))
+        if user_flux is not None:
+            table, table_0 = table_u, table
+            try:
+                mtu = iface.run_bldfm_multitower(cfg, surface_flux=user_flux)
+                counters["driver_calls"] += 1
+                compare("run_bldfm_multitower", mtu, dict(options=desc, surface_flux="supplied by the caller"))
+                tsu = iface.run_bldfm_timeseries(cfg, cfg.towers[0], surface_flux=user_flux)
+                counters["driver_calls"] += 1
+                compare("run_bldfm_timeseries", {t.name: (tsu if t.name == cfg.towers[0].name else [table[(t.name, i)] for i in range(ns)]) for t in cfg.towers},
+                        dict(options=desc, surface_flux="supplied by the caller"))
+                buckets["surface_flux_supplied_to_serial_drivers"] = 1
+            finally:
+                table = table_0
         # parallel driver
         combos = [(s, w) for s in ("towers", "time", "both") for w in (1, 2, 3, 5)]
         pick = [combos[i] for i in rng.permutation(len(combos))[: (6 if nt * ns > 1 else 3)]]
